@@ -299,7 +299,7 @@ def obligations(tier):
                         ((2, 3, 2), [0, 1]), ((2, 3, 2), [1, 0]), ((2, 3, 2), [2, 1])]):
         out += specs("C16.md.conditional", [{"shape": list(s), "cvars": cv, "lo": 1e-3}], ob_md_conditional, 5)
     out += specs("C16.md.getitem", [{"shape": list(s)} for s in tiers(tier, [(2, 3), (2, 2, 2)], [(2, 3), (3, 4), (2, 2, 2), (2, 3, 2), (2, 2, 2, 2)])], ob_md_getitem, 2)
-    out += specs("C16.md.getitem", [{"shape": list(s), "eps": 0.05} for s in tiers(tier, [(2, 2)], [(2, 2), (2, 3)])], ob_md_getitem, 4)
+    out += specs("C16.md.getitem", [{"shape": list(s), "eps": 0.05} for s in [(2, 2)]], ob_md_getitem, 4)
     out += specs("C16.validate", [{"n": n, "validate_sum": v} for n in tiers(tier, [2, 3], [2, 3, 4, 5]) for v in (True, False)], ob_validate, 2)
     return out
 
